@@ -3,7 +3,6 @@ from .. import backtest
 from ..oracles.ledger import LedgerMonitor
 from ..oracles.requests import RequestMonitor
 from . import common, lifecycle_common
-from .common import sample_view, shrink  # noqa
 
 ID = "C02"
 LEVEL = "exploration"
@@ -17,15 +16,43 @@ RULE = (
     "refused or a transaction produced two or more packages; distinct = distinct scenario digests"
 )
 ASSUMPTIONS = [
-    "World A: SimulatedClient / Betfair order packages; Betdaq and the live Betfair execution seam are covered by World B where built (DESIGN.md)",
+    "80% World A (SimulatedClient), 20% World B (BetfairClient against the exchange double, incl. the opt-in ExecutionValidation control with the order stream reported down); the Betdaq client is NOT covered",
     "a request on an order that was never sent (status VIOLATION) may re-mark it as a violation (the permitted effect for never-sent orders)",
     "creating an empty runner context for a runner is not a change of the runner accounting",
 ]
-COMPONENTS = common.COMPONENTS_A
+from . import C11 as _c11
+
+COMPONENTS = dict(common.COMPONENTS_A, world_B=_c11.COMPONENTS)
 MONITORS = [LedgerMonitor, RequestMonitor]
 
 
 def generate(rng, i, tier):
+    if rng.random() < 0.2:
+        # World B: the same request discipline against the live Betfair execution seam (real thread-pool hand-over
+        # replaced by the scheduler), scripted controls and forced requests included
+        from .. import livegen
+
+        sc = livegen.gen_live(rng, "C12" if rng.random() < 0.5 else "C11")
+        sc.pop("crash_at", None)
+        sc.pop("foreign_bets", None)
+        sc["controls"] = []
+        if rng.random() < 0.6:
+            sc["controls"].append({"level": "trading", "mod": rng.choice([2, 3]), "rem": rng.randrange(2), "kinds": rng.sample(["PLACE", "CANCEL", "UPDATE", "REPLACE"], rng.randint(1, 3))})
+        if rng.random() < 0.3:
+            sc["controls"].append({"level": "client", "client": 0, "mod": 2, "rem": rng.randrange(2), "kinds": rng.sample(["PLACE", "CANCEL", "UPDATE", "REPLACE"], 2)})
+        if rng.random() < 0.3:
+            sc["cfg"]["execution_validation"] = True
+            sc["cfg"]["order_stream_down"] = rng.random() < 0.5
+        pf = rng.choice([0.0, 0.3])
+        for m in sc["markets"]:
+            for u in m["updates"]:
+                for key in ("acts", "oacts"):
+                    for acts in (u.get(key) or {}).values():
+                        for a in acts:
+                            for x in a["acts"] if a["op"] == "txn" else [a]:
+                                if rng.random() < pf:
+                                    x["force"] = True
+        return sc
     sc = lifecycle_common.scenario(rng, ID)
     st = sc["strategies"]
     # controls
@@ -91,4 +118,24 @@ def generate(rng, i, tier):
 
 
 def execute(scenario):
+    if scenario.get("world") == "B":
+        from .. import live
+
+        return live.run_scenario(scenario, [RequestMonitor], owner=ID)
     return backtest.run_scenario(scenario, MONITORS, owner=ID)
+
+
+def sample_view(scenario):  # noqa: F811
+    if scenario.get("world") == "B":
+        from . import C11
+
+        return C11.sample_view(scenario)
+    return common.sample_view(scenario)
+
+
+def shrink(scenario, test, deadline):  # noqa: F811
+    if scenario.get("world") == "B":
+        from . import C11
+
+        return C11.shrink_live(scenario, test, deadline)
+    return common.shrink(scenario, test, deadline)
